@@ -4,6 +4,7 @@
 -/
 import GocoinV.Model.NetParse
 import GocoinV.Model.Wire
+import GocoinV.Gen.NetFacts
 namespace GocoinV.NetParse
 open GocoinV GocoinV.CompactSize
 
@@ -607,5 +608,72 @@ theorem fetchMessage_total (E : FetchEnv) (w : Bytes) : Good (fetchMessage E w) 
   repeat' split
   all_goals first | (simp [Good, Out.isPanic]; done) | simp_all
 
+
+/-- `if x = c then A else B`: close the `then` goal with `t`, continue with `B` (avoids `split`,
+    which normalises the string comparison at great cost) -/
+macro "case_cmd " x:term:max c:str " => " t:tactic : tactic =>
+  `(tactic| (by_cases hcmd : $x = $c; (· (rw [if_pos hcmd] <;> $t)); rw [if_neg hcmd]; clear hcmd))
+
+theorem maxMsgSize_le (cmd : String) : Gen.NetFacts.maxMsgSize cmd ≤ 8000009 := by
+  unfold Gen.NetFacts.maxMsgSize
+  case_cmd cmd "inv" => (try omega)
+  case_cmd cmd "tx" => (try omega)
+  case_cmd cmd "addr" => (try omega)
+  case_cmd cmd "block" => (try omega)
+  case_cmd cmd "getblocks" => (try omega)
+  case_cmd cmd "getdata" => (try omega)
+  case_cmd cmd "headers" => (try omega)
+  case_cmd cmd "getheaders" => (try omega)
+  case_cmd cmd "cmpctblock" => (try omega)
+  case_cmd cmd "getblocktxn" => (try omega)
+  case_cmd cmd "blocktxn" => (try omega)
+  case_cmd cmd "notfound" => (try omega)
+  case_cmd cmd "getmp" => (try omega)
+  omega
+
+theorem lift {r : Res} {b B : Nat} (h : Good r ∧ r.steps ≤ b) (hb : b ≤ B) :
+    r.out.isPanic = false ∧ r.locks = [] ∧ r.steps ≤ B :=
+  ⟨h.1.1, h.1.2, by omega⟩
+
+theorem parse_total (E : Env) (hts : ∀ b, E.txSize b ≤ b.length) (cmd : String) (pl : Bytes)
+    (hl : pl.length < 2^62) :
+    (parse E cmd pl).out.isPanic = false ∧ (parse E cmd pl).locks = [] ∧ (parse E cmd pl).steps ≤ pl.length + 131073 := by
+  unfold parse
+  case_cmd cmd "version" => exact lift (handleVersion_total pl hl) (by omega)
+  case_cmd cmd "inv" => exact lift (processInv_total pl hl) (by omega)
+  case_cmd cmd "tx" => exact lift (parseTxNet_total E.newTx pl) (by omega)
+  case_cmd cmd "addr" => exact lift (parseAddr_total pl) (by omega)
+  case_cmd cmd "block" => exact lift (netBlockReceived_total pl) (by omega)
+  case_cmd cmd "getblocks" => exact lift (getBlocks_total pl) (by omega)
+  case_cmd cmd "getdata" => exact lift (processGetData_total pl) (by omega)
+  case_cmd cmd "pong" => exact ⟨by simp [handlePong, Out.isPanic], by simp [handlePong], by simp [handlePong]⟩
+  case_cmd cmd "getheaders" => exact lift (getHeaders_total pl) (by omega)
+  case_cmd cmd "headers" => exact lift (handleHeaders_total pl) (by omega)
+  case_cmd cmd "feefilter" => exact lift (feeFilter_total pl) (by omega)
+  case_cmd cmd "sendcmpct" => exact lift (sendCmpct_total pl) (by omega)
+  case_cmd cmd "cmpctblock" => exact lift (processCmpctBlock_total E.txSize hts pl hl) (by omega)
+  case_cmd cmd "getblocktxn" => exact lift (processGetBlockTxn_total E.ntx pl) (by omega)
+  case_cmd cmd "blocktxn" => exact lift (processBlockTxn_total E.txSize hts pl hl) (by omega)
+  case_cmd cmd "getmp" => (cases E.authorized <;> first | exact lift (processGetMP_total pl) (by omega) | simp [Out.isPanic])
+  case_cmd cmd "xauth" => exact lift (authRcvd_total E.authGot pl) (by omega)
+  simp [Out.isPanic]
+
+
+theorem wire_txSize_le (b : Bytes) : Wire.txSize b ≤ b.length := by
+  unfold Wire.txSize
+  simp only []
+  cases h1 : Wire.readN 4 b with
+  | none => simp
+  | some x =>
+    obtain ⟨x4, b1⟩ := x
+    have hl : 4 ≤ b.length := by
+      unfold Wire.readN at h1
+      split at h1
+      · omega
+      · simp at h1
+    simp only []
+    repeat' split
+    all_goals simp
+    all_goals omega
 
 end GocoinV.NetParse
